@@ -35,7 +35,7 @@ import numpy as np
 from bounded import fixture as fx
 from bounded import c14 as m
 
-STAGES = ['stats', 'markers', 'pmask', 'pmarkers', 'selection', 'transposition', 'mapping']
+STAGES = ['mapping', 'stats', 'markers', 'selection', 'pmask', 'pmarkers', 'transposition']
 NPROC = {'stats': 3, 'markers': 2, 'pmask': 2, 'pmarkers': 2, 'selection': 2, 'transposition': 3,
          'mapping': 3}
 EXPECTED = {'stats': {'precomputed_stats.h5'}, 'markers': {'reference_markers.h5'},
@@ -95,11 +95,33 @@ def _hashes(directory):
     return out
 
 
+def clone_inputs(world, dest):
+    """every run gets its own copy of the input files (a stage that modifies an input is then
+    caught in its own run only); the reference-marker copy points to the copied statistics file"""
+    import h5py
+    os.makedirs(dest)
+    src = world.workdir
+    for n in os.listdir(src):
+        if os.path.isfile(os.path.join(src, n)):
+            shutil.copy(os.path.join(src, n), os.path.join(dest, n))
+    new = fx.World(dict(world))
+    for k, v in list(new.items()):
+        if k.endswith('_path') and isinstance(v, str) and os.path.dirname(v) == src:
+            new[k] = os.path.join(dest, os.path.basename(v))
+    new['workdir'] = dest
+    with h5py.File(new['reference_marker_path'], 'a') as f:
+        del f['metadata']
+        f.create_dataset('metadata', data=json.dumps(
+            {'precomputed_path': new['precomputed_path']}).encode('utf-8'))
+    return new
+
+
 def scenario(world, stage, out, scratch, watch, nproc=None, start_at=None, fault=None,
              cfg_over=None, settle=0.15):
     """one run of `stage` (inside an isolated process).  `watch` = directory under which the fresh
     system-temp and working directories of this run are made."""
     nproc = nproc or NPROC[stage]
+    world = clone_inputs(world, os.path.join(watch, f'inputs_{os.getpid()}'))
     systmp = tempfile.mkdtemp(prefix='systmp_', dir=watch)
     cwd = tempfile.mkdtemp(prefix='cwd_', dir=watch)
     os.environ['TMPDIR'] = systmp
@@ -125,6 +147,11 @@ def scenario(world, stage, out, scratch, watch, nproc=None, start_at=None, fault
     if fault is not None:
         plan = m.fault_plan(stage, fault['k'], fault['mode'], fault['point'], 0,
                             os.path.join(watch, 'fault_fired'))
+        if fault.get('schedule') == 'siblings-publish-at-cleanup':
+            # see bounded.c14._PublishWhenCleanupStarts: the neighbours of the failing worker write
+            # their chunk at the moment the parent starts to clean the buffer directory
+            plan['siblings_publish_at_cleanup'] = (m.M + 'type_assignment.election', 'save_results',
+                                                   (fault['k'] - 1, fault['k'] + 1))
     raised = None
     t0 = time.time()
     with m.injected(plan):
@@ -183,7 +210,7 @@ def check_footprint(row, stage, what, obs, replay, allow_query_change=False, fai
     b, a = obs['before'], obs['after']
     changed = [n for n in b['inputs'] if a['inputs'].get(n) != b['inputs'][n]]
     if allow_query_change:
-        changed = [n for n in changed if n != 'query.h5ad' and not n.startswith('query_')]
+        changed = [n for n in changed if n != 'query_obsm.h5ad']
     if changed:
         _fail(row, CL_INPUT, 'input-modified', replay, f'changed or removed: {changed}', changed)
     new_in = sorted(set(a['in_listing']) - set(b['in_listing']))
@@ -244,55 +271,61 @@ def _world_desc(world):
         world.seed, world.get('encoding')))
 
 
-def _do_stage(R, row, world, stage, tier):
-    """clean / stale / rerun / concurrent for one stage; returns the reference output directory"""
-    desc = _world_desc(world)
+def _rp(world, stage, scn, **kw):
+    d = dict(stage=stage, entry=m.STAGES[stage]['function'], scenario=scn, n_processors=NPROC[stage])
+    d.update(_world_desc(world))
+    d.update(kw)
+    return d
 
-    def rp(scn, **kw):
-        d = dict(stage=stage, entry=m.STAGES[stage]['function'], scenario=scn,
-                 n_processors=NPROC[stage])
-        d.update(desc)
-        d.update(kw)
-        return d
 
-    def usable(status, obs, scn):
-        row['cases'] += 1
-        if status == 'hang':
-            fx.add_failure(row, CL_SCRATCH, 'hang', rp(scn), f'no return within {obs} s')
-            return False
-        if status != 'ok':
-            fx.add_error(row, f'{stage}/{scn}: {status}: {obs}')
-            return False
-        if obs['raised'] is not None:
-            # a stage that fails on valid input is not what C19 is about: harness-level note
+def _usable(row, world, stage, status, obs, scn, clause=CL_SCRATCH):
+    """count the case; True when the run returned normally and can be judged"""
+    row['cases'] += 1
+    if status == 'hang':
+        fx.add_failure(row, clause, 'hang', _rp(world, stage, scn), f'no return within {obs} s')
+        return False
+    if status != 'ok':
+        fx.add_error(row, f'{stage}/{scn}: {status}: {obs}')
+        return False
+    if obs['raised'] is not None:
+        if clause in (CL_RERUN, CL_CONC):
+            fx.add_failure(row, clause, 'run-raises', _rp(world, stage, scn), obs['raised'])
+        else:       # a stage failing on valid input in a fresh directory is not what C19 is about
             fx.add_error(row, f'{stage}/{scn}: the run raised {obs["raised"]}')
-            return False
-        row['accepted'] += 1
-        fx.note_case(row, (stage, scn, desc['make_world']), rp(scn))
-        return True
+        return False
+    row['accepted'] += 1
+    fx.note_case(row, (stage, scn, _world_desc(world)['make_world']), _rp(world, stage, scn))
+    return True
 
-    # -- clean
-    out0, scr0, w0 = R.dirs(stage + '_clean')
-    (status, obs), = R.run([dict(world=world, stage=stage, out=out0, scratch=scr0, watch=w0)])
-    if not usable(status, obs, 'clean'):
-        return None
-    check_footprint(row, stage, 'clean', obs, rp('clean'))
-    if R.late():
-        return out0
 
-    # -- stale files; two runs at the same time in one scratch directory (one batch of 3 processes)
+def _phase_clean(R, rows, world, stages):
+    """fresh directories, all stages in one batch; returns {stage: (out, scratch, watch)}"""
+    dirs = {st: R.dirs(st + '_clean') for st in stages}
+    res = R.run([dict(world=world, stage=st, out=dirs[st][0], scratch=dirs[st][1], watch=dirs[st][2])
+                 for st in stages])
+    ok = {}
+    for st, (status, obs) in zip(stages, res):
+        if _usable(rows[st], world, st, status, obs, 'clean'):
+            check_footprint(rows[st], st, 'clean', obs, _rp(world, st, 'clean'))
+            ok[st] = dirs[st]
+    return ok
+
+
+def _phase_stale_concurrent(R, row, world, stage, ref_out):
     out1, scr1, w1 = R.dirs(stage + '_stale')
     planted_s = _plant(scr1, STALE_SCRATCH)
     planted_o = _plant(out1, STALE_OUT)
     outa, scr2, wa = R.dirs(stage + '_concA')
     outb, _unused, wb = R.dirs(stage + '_concB')
     start = time.time() + 0.4
-    batch = R.run([dict(world=world, stage=stage, out=outa, scratch=scr2, watch=wa, start_at=start),
-                   dict(world=world, stage=stage, out=outb, scratch=scr2, watch=wb, start_at=start),
-                   dict(world=world, stage=stage, out=out1, scratch=scr1, watch=w1)])
-    (status, obs) = batch[2]
-    replay = rp('stale', planted_in_scratch=planted_s, planted_in_output_dir=planted_o)
-    if usable(status, obs, 'stale'):
+    batch = m.run_isolated_many(_entry, [
+        dict(world=world, stage=stage, out=outa, scratch=scr2, watch=wa, start_at=start),
+        dict(world=world, stage=stage, out=outb, scratch=scr2, watch=wb, start_at=start),
+        dict(world=world, stage=stage, out=out1, scratch=scr1, watch=w1)], jobs=3, timeout=120,
+        workdir=R.root)
+    status, obs = batch[2]
+    replay = _rp(world, stage, 'stale', planted_in_scratch=planted_s, planted_in_output_dir=planted_o)
+    if _usable(row, world, stage, status, obs, 'stale'):
         check_footprint(row, stage, 'stale', obs, replay)
         for n in planted_o:                      # compare only what the stage wrote
             top = os.path.join(out1, n.split(os.sep)[0])
@@ -300,61 +333,45 @@ def _do_stage(R, row, world, stage, tier):
                 shutil.rmtree(top, ignore_errors=True)
             elif os.path.exists(top):
                 os.unlink(top)
-        d = m.outputs_diff(stage, out0, out1)
+        d = m.outputs_diff(stage, ref_out, out1)
         if d:
             fx.add_failure(row, CL_STALE, 'result-differs', replay, d)
-
-    res = batch[:2]
-    replay = rp('two processes started together, same scratch directory, different output directories')
+    scn = 'two processes started together, same scratch directory, different output directories'
+    replay = _rp(world, stage, scn)
     oks = []
-    for (status, obs), o in zip(res, (outa, outb)):
-        row['cases'] += 1
-        if status == 'ok' and obs['raised'] is not None:
-            fx.add_failure(row, CL_CONC, 'concurrent-run-raises', replay, obs['raised'])
-        elif status == 'ok':
-            row['accepted'] += 1
+    for (status, obs), o in zip(batch[:2], (outa, outb)):
+        if _usable(row, world, stage, status, obs, scn, CL_CONC):
             check_footprint(row, stage, 'concurrent', obs, replay, shared_scratch=True)
-            d = m.outputs_diff(stage, out0, o)
+            d = m.outputs_diff(stage, ref_out, o)
             if d:
                 fx.add_failure(row, CL_CONC, 'result-differs', replay, d)
             oks.append(obs)
-        elif status == 'hang':
-            fx.add_failure(row, CL_CONC, 'hang', replay, f'no return within {obs} s')
-        else:
-            fx.add_error(row, f'{stage}/concurrent: {status}: {obs}')
     if len(oks) == 2:
         overlap = min(o['t1'] for o in oks) - max(o['t0'] for o in oks)
-        fx.note_case(row, (stage, 'concurrent', desc['make_world']), replay)
         row.setdefault('_overlap', []).append(round(overlap, 3))
         left = m.tree_listing(scr2)
         if left:
             fx.add_failure(row, CL_SCRATCH, 'left-in-shared-scratch', replay,
                            f'after both runs returned: {_top(left)} ({len(left)} entries)')
-    if R.late():
-        return out0
 
-    # -- rerun into the same directories
-    keep = os.path.join(R.root, f'{stage}_clean_copy')
-    shutil.copytree(out0, keep)
-    (status, obs), = R.run([dict(world=world, stage=stage, out=out0, scratch=scr0, watch=w0)])
-    row['cases'] += 1
-    replay = rp('rerun into the output and scratch directories of a finished run')
-    if status == 'ok' and obs['raised'] is not None:
-        fx.add_failure(row, CL_RERUN, 'second-run-raises', replay, obs['raised'])
-    elif status == 'ok':
-        row['accepted'] += 1
-        fx.note_case(row, (stage, 'rerun', desc['make_world']), replay)
-        check_footprint(row, stage, 'rerun', obs, replay)
-        d = m.outputs_diff(stage, keep, out0)
-        if d:
-            fx.add_failure(row, CL_RERUN, 'result-differs', replay, d)
-    elif status == 'hang':
-        fx.add_failure(row, CL_RERUN, 'hang', replay, f'no return within {obs} s')
-    else:
-        fx.add_error(row, f'{stage}/rerun: {status}: {obs}')
-    if R.late():
-        return keep
 
+def _phase_rerun(R, rows, world, clean_dirs):
+    """again into the directories of the clean runs (success after success), one batch"""
+    stages = list(clean_dirs)
+    keep = {}
+    for st in stages:
+        keep[st] = os.path.join(R.root, f'{st}_clean_copy')
+        shutil.copytree(clean_dirs[st][0], keep[st])
+    res = R.run([dict(world=world, stage=st, out=clean_dirs[st][0], scratch=clean_dirs[st][1],
+                      watch=clean_dirs[st][2]) for st in stages])
+    scn = 'rerun into the output and scratch directories of a finished run'
+    for st, (status, obs) in zip(stages, res):
+        if _usable(rows[st], world, st, status, obs, scn, CL_RERUN):
+            replay = _rp(world, st, scn)
+            check_footprint(rows[st], st, 'rerun', obs, replay)
+            d = m.outputs_diff(st, keep[st], clean_dirs[st][0])
+            if d:
+                fx.add_failure(rows[st], CL_RERUN, 'result-differs', replay, d)
     return keep
 
 
@@ -368,31 +385,30 @@ def _bad_marker_files(world, root):
     return garbage, nogenes
 
 
-def _do_mapping_failures(R, row, world, ref_out, tier, rng):
+def _phase_mapping_failures(R, row, world, ref_out, tier, rng):
     desc = _world_desc(world)
     garbage, nogenes = _bad_marker_files(world, R.root)
     modes = [('missing statistics file', dict(_missing_stats=True), None),
              ('marker file that is not JSON', dict(_marker_path=garbage), None),
              ('marker file naming no gene of the query', dict(_marker_path=nogenes), None)]
     faults = [dict(k=k, mode=mo, point=pt) for k in range(3) for mo in m.MODES for pt in m.POINTS]
-    if tier == 'thorough':
-        picked = faults
-    else:
-        picked = [faults[int(i)] for i in rng.choice(len(faults), 3, replace=False)]
+    picked = faults if tier == 'thorough' else [faults[int(i)] for i in rng.choice(len(faults), 3, replace=False)]
     for f in picked:
         modes.append((f'injected worker failure {f}', {}, f))
+    for rep in range(2 if tier == 'quick' else 6):
+        f = dict(k=6 + rep % 2, mode=m.MODES[rep % 3], point='after', schedule='siblings-publish-at-cleanup')
+        modes.append((f'injected worker failure {f} (chunk_size=2; neighbours write their chunk when '
+                      f'the clean-up starts; a race: repetition {rep})', dict(chunk_size=2), f))
     variants = []
-    for name, over, fault in modes:
+    for i, (name, over, fault) in enumerate(modes):
         variants.append((name, dict(over), fault))
-        if fault is None or tier == 'thorough':
+        if tier == 'thorough' or i in (0, 1) or (fault is not None and i == len(modes) - 1):
             variants.append((name + ', tmp_dir=None', dict(over, _no_tmp_dir=True), fault))
-    for name, over, fault in variants:
-        if R.late():
-            row['_skipped'] = row.get('_skipped', 0) + 1
-            continue
-        out, scr, w = R.dirs('mapping_fail')
-        (status, obs), = R.run([dict(world=world, stage='mapping', out=out, scratch=scr, watch=w,
-                                     fault=fault, cfg_over=over)])
+    dirs = [R.dirs('mapping_fail') for _ in variants]
+    res = R.run([dict(world=world, stage='mapping', out=d[0], scratch=d[1], watch=d[2], fault=fault,
+                      cfg_over=over) for d, (name, over, fault) in zip(dirs, variants)])
+    again = []
+    for d, (name, over, fault), (status, obs) in zip(dirs, variants, res):
         row['cases'] += 1
         replay = dict(stage='mapping', entry=m.STAGES['mapping']['function'], scenario=name,
                       config_patch={k: (v if not isinstance(v, str) else os.path.basename(v))
@@ -414,68 +430,73 @@ def _do_mapping_failures(R, row, world, ref_out, tier, rng):
         row['accepted'] += 1
         fx.note_case(row, ('mapping', name, desc['make_world']), replay)
         check_footprint(row, 'mapping', name, obs, replay, failing=True)
-        # success after failure, same directories
-        if fault is None and not R.late():
-            for n in os.listdir(out):
-                pth = os.path.join(out, n)
-                if os.path.isfile(pth):
-                    os.unlink(pth)
-            (status, obs2), = R.run([dict(world=world, stage='mapping', out=out, scratch=scr, watch=w)])
-            row['cases'] += 1
-            replay2 = dict(replay, scenario='successful run in the directories left by: ' + name)
-            if status == 'ok' and obs2['raised'] is None:
-                row['accepted'] += 1
-                fx.note_case(row, ('mapping', 'after ' + name, desc['make_world']), replay2)
-                for junk in [n for n in os.listdir(out) if n not in EXPECTED['mapping']]:
-                    shutil.rmtree(os.path.join(out, junk), ignore_errors=True)
-                d = m.outputs_diff('mapping', ref_out, out)
-                if d:
-                    fx.add_failure(row, CL_RERUN, 'result-differs-after-failure', replay2, d)
-            elif status == 'ok':
-                fx.add_failure(row, CL_RERUN, 'run-after-failure-raises', replay2, obs2['raised'])
-            else:
-                fx.add_error(row, f'mapping/after {name}: {status}: {obs2}')
+        if tier == 'thorough' or fault is None:
+            again.append((d, name, replay))
+    # success after failure, in the directories the failing runs left
+    for d, name, replay in again:
+        for n in os.listdir(d[0]):
+            pth = os.path.join(d[0], n)
+            if os.path.isfile(pth):
+                os.unlink(pth)
+    res = R.run([dict(world=world, stage='mapping', out=d[0], scratch=d[1], watch=d[2])
+                 for d, name, replay in again]) if again else []
+    for (d, name, replay), (status, obs2) in zip(again, res):
+        row['cases'] += 1
+        replay2 = dict(replay, scenario='successful run in the directories left by: ' + name)
+        if status == 'ok' and obs2['raised'] is None:
+            row['accepted'] += 1
+            fx.note_case(row, ('mapping', 'after ' + name, desc['make_world']), replay2)
+            for junk in [n for n in os.listdir(d[0]) if n not in EXPECTED['mapping']]:
+                shutil.rmtree(os.path.join(d[0], junk), ignore_errors=True)
+            dd = m.outputs_diff('mapping', ref_out, d[0])
+            if dd:
+                fx.add_failure(row, CL_RERUN, 'result-differs-after-failure', replay2, dd)
+        elif status == 'ok':
+            fx.add_failure(row, CL_RERUN, 'run-after-failure-raises', replay2, obs2['raised'])
+        elif status == 'hang':
+            fx.add_failure(row, CL_RERUN, 'hang', replay2, f'no return within {obs2} s')
+        else:
+            fx.add_error(row, f'mapping/after {name}: {status}: {obs2}')
 
 
-def _do_mapping_extras(R, row, world, tier):
+def _phase_mapping_extras(R, row, world):
     desc = _world_desc(world)
+    d1, d2 = R.dirs('mapping_notmp'), R.dirs('mapping_obsm')
+    # the run that stores results in the query file gets a query file of its own
+    # (outside the world directory, so that every file of the world must stay identical)
+    os.makedirs(os.path.join(R.root, 'obsm_input'), exist_ok=True)
+    q_obsm = os.path.join(R.root, 'obsm_input', 'query_obsm.h5ad')
+    shutil.copy(world.query_path, q_obsm)
+    sha_before = m.sha256(q_obsm)
+    res = R.run([dict(world=world, stage='mapping', out=d1[0], scratch=d1[1], watch=d1[2],
+                      cfg_over=dict(_no_tmp_dir=True)),
+                 dict(world=world, stage='mapping', out=d2[0], scratch=d2[1], watch=d2[2],
+                      cfg_over=dict(obsm_key='cdm_results', query_path=q_obsm))])
     # successful run without a scratch directory: nothing may be left anywhere
-    out, scr, w = R.dirs('mapping_notmp')
-    (status, obs), = R.run([dict(world=world, stage='mapping', out=out, scratch=scr, watch=w,
-                                 cfg_over=dict(_no_tmp_dir=True))])
-    row['cases'] += 1
-    replay = dict(stage='mapping', scenario='successful run with tmp_dir=None', **desc)
-    if status == 'ok' and obs['raised'] is None:
-        row['accepted'] += 1
-        fx.note_case(row, ('mapping', 'tmp_dir=None', desc['make_world']), replay)
-        check_footprint(row, 'mapping', 'tmp_dir=None', obs, replay)
-    elif status == 'ok':
-        fx.add_error(row, f'mapping/tmp_dir=None: raised {obs["raised"]}')
-    else:
-        fx.add_error(row, f'mapping/tmp_dir=None: {status}: {obs}')
+    status, obs = res[0]
+    if _usable(row, world, 'mapping', status, obs, 'successful run with tmp_dir=None'):
+        check_footprint(row, 'mapping', 'tmp_dir=None', obs,
+                        _rp(world, 'mapping', 'successful run with tmp_dir=None'))
     # results stored in the query file: only that file may change
-    out, scr, w = R.dirs('mapping_obsm')
-    (status, obs), = R.run([dict(world=world, stage='mapping', out=out, scratch=scr, watch=w,
-                                 cfg_over=dict(obsm_key='cdm_results'))])
-    row['cases'] += 1
-    replay = dict(stage='mapping', scenario="obsm_key='cdm_results'", **desc)
-    if status == 'ok' and obs['raised'] is None:
-        row['accepted'] += 1
-        fx.note_case(row, ('mapping', 'obsm', desc['make_world']), replay)
-        check_footprint(row, 'mapping', 'obsm', obs, replay, allow_query_change=True)
-        b, a = obs['before']['inputs'], obs['after']['inputs']
-        if a.get('query.h5ad') == b.get('query.h5ad'):
+    status, obs = res[1]
+    if _usable(row, world, 'mapping', status, obs, "obsm_key='cdm_results'"):
+        check_footprint(row, 'mapping', 'obsm', obs, _rp(world, 'mapping', "obsm_key='cdm_results'"))
+        if m.sha256(q_obsm) == sha_before:
             fx.add_error(row, 'mapping/obsm: the query file did not change although obsm_key was given')
-    elif status == 'ok':
-        fx.add_error(row, f'mapping/obsm: raised {obs["raised"]}')
-    else:
-        fx.add_error(row, f'mapping/obsm: {status}: {obs}')
+        left = [n for n in os.listdir(os.path.dirname(q_obsm)) if n != 'query_obsm.h5ad']
+        if left:
+            fx.add_failure(row, CL_ONLY, 'file-next-to-query', _rp(world, 'mapping', "obsm_key='cdm_results'"),
+                           f'new next to the query file: {left}')
+    try:
+        os.unlink(q_obsm)
+    except OSError:
+        pass
 
 
 def run(tier='quick', seed=0, jobs=None):
     t_start = time.time()
     jobs = max(1, min(int(jobs or 2), 3))
-    deadline = t_start + (48 if tier == 'quick' else 430)
+    deadline = t_start + (50 if tier == 'quick' else 430)
     rng = np.random.default_rng([int(seed), 19])
     rows = {}
     for stage in STAGES:
@@ -487,8 +508,8 @@ def run(tier='quick', seed=0, jobs=None):
             "tiny world (6 leaves, 30 genes, 36 reference / 20 query cells); scenarios clean, "
             f"{len(STALE_SCRATCH)}+{len(STALE_OUT)} stale names, rerun, 2 concurrent runs"
             + ("; failing runs: missing statistics, 2 malformed marker files, injected worker failures "
-               "(all 27 in thorough, 3 seeded in quick), each with and without tmp_dir; obsm_key; CSC query"
-               if stage == 'mapping' else ''), clauses)
+               "(all 27 in thorough, 3 seeded in quick), with and without tmp_dir; success after failure; "
+               "tmp_dir=None; obsm_key; CSC query" if stage == 'mapping' else ''), clauses)
     root = tempfile.mkdtemp(prefix='verif_', dir='/tmp')
     try:
         worlds = []
@@ -503,16 +524,31 @@ def run(tier='quick', seed=0, jobs=None):
                                     f'{traceback.format_exc()[-1000:]}')
         R = _Runner(os.path.join(root, 'runs'), jobs, deadline)
         os.makedirs(R.root)
+
+        def skipped(what):
+            for r in rows.values():
+                r.setdefault('_skipped', []).append(what)
         for wi, world in enumerate(worlds):
-            for stage in STAGES:
-                if R.late():
-                    rows[stage]['_skipped'] = rows[stage].get('_skipped', 0) + 1
+            if R.late():
+                skipped(f'world {wi}')
+                continue
+            clean = _phase_clean(R, rows, world, STAGES)
+            if 'mapping' in clean and not R.late():
+                _phase_mapping_failures(R, rows['mapping'], world, clean['mapping'][0],
+                                        tier if wi == 0 else 'quick', rng)
+            if 'mapping' in clean and not R.late():
+                _phase_mapping_extras(R, rows['mapping'], world)
+            for st in STAGES:
+                if st not in clean:
                     continue
-                ref = _do_stage(R, rows[stage], world, stage, tier)
-                if stage == 'mapping' and ref is not None:
-                    _do_mapping_failures(R, rows[stage], world, ref, tier if wi == 0 else 'quick', rng)
-                    if not R.late():
-                        _do_mapping_extras(R, rows[stage], world, tier)
+                if R.late():
+                    rows[st].setdefault('_skipped', []).append('stale / concurrent')
+                    continue
+                _phase_stale_concurrent(R, rows[st], world, st, clean[st][0])
+            if not R.late():
+                _phase_rerun(R, rows, world, clean)
+            else:
+                skipped('rerun')
             shutil.rmtree(R.root, ignore_errors=True)
             os.makedirs(R.root)
     finally:
@@ -520,12 +556,12 @@ def run(tier='quick', seed=0, jobs=None):
     out = []
     for stage in STAGES:
         r = rows[stage]
-        sk = r.pop('_skipped', 0)
+        sk = r.pop('_skipped', None)
         ov = r.pop('_overlap', None)
         if ov is not None:
             r['bound'] += f'; overlap of the concurrent runs (s): {ov}'
         if sk:
-            r['bound'] += f' -- {sk} scenario groups not run (wall budget)'
+            r['bound'] += f' -- not run (wall budget): {sk}'
         _flush_classes(r)
         out.append(fx.finish_row(r))
     return out
